@@ -504,3 +504,43 @@ func (b *Bulk) Failed() { b.sr.Passed = false }
 
 // Hash64 exposes the FNV-1a hash used for distinct counting.
 func Hash64(b []byte) uint64 { return hash64("", b) }
+
+// FailAndExit reports a violation that cannot be shrunk or safely continued from (for example a
+// hung call whose goroutines are still running), flushes the evidence part and exits the process.
+func FailAndExit(prop, sub string, c any, err error) {
+	p := writeReplay(prop, sub, c, err.Error())
+	rec.mu.Lock()
+	rec.viol = append(rec.viol, violation{prop, sub, p, firstLine(err.Error())})
+	if s, ok := rec.subs[sub]; ok {
+		s.Passed = false
+	}
+	rec.mu.Unlock()
+	fmt.Printf("VERIF-FAIL property=%s sub=%s replay=%s error=%s\n", prop, sub, p, firstLine(err.Error()))
+	flushPart(1, time.Now())
+	os.Exit(1)
+}
+
+func flushPart(code int, start time.Time) {
+	if *flagPart == "" {
+		return
+	}
+	rec.mu.Lock()
+	defer rec.mu.Unlock()
+	rec.compact()
+	part := map[string]any{
+		"subs":       rec.subs,
+		"order":      rec.order,
+		"notes":      rec.notes,
+		"violations": rec.viol,
+		"wall_s":     time.Since(start).Seconds(),
+		"exit":       code,
+		"hash_count": len(rec.hashes),
+	}
+	b, _ := json.MarshalIndent(part, "", " ")
+	_ = os.WriteFile(*flagPart, b, 0o644)
+	hb := make([]byte, 8*len(rec.hashes))
+	for i, v := range rec.hashes {
+		binary.LittleEndian.PutUint64(hb[8*i:], v)
+	}
+	_ = os.WriteFile(*flagPart+".h", hb, 0o644)
+}
